@@ -326,8 +326,12 @@ def exec_ghost(it, reg, text, fr, result, old, genv=None):
     sf.spec.old = old
     sf.spec.result = result
     sf.env["result"] = result
-    for st in tree.body:
-        it.exec_stmt(st, sf)
+    it.run.spec_depth += 1
+    try:
+        for st in tree.body:
+            it.exec_stmt(st, sf)
+    finally:
+        it.run.spec_depth -= 1
 
 
 # ---------------------------------------------------------------------------
